@@ -177,6 +177,11 @@ impl Kernel for World {
         self.tick();
         self.calls.push(format!("kill:{}:{}", self.canon(pid), sig));
         self.kills.push((pid, sig));
+        if sig < 0 || sig > 64 {
+            // not a signal number: the kernel refuses and delivers nothing
+            self.resps.push("err:22".into());
+            return Ans::Err(libc::EINVAL);
+        }
         if self.reap_seen_at_call.is_some() || self.gone() {
             // The property forbids a signal once the library has *observed* the end of the child (a waitpid of
             // its own returned the pid, or ECHILD told it that someone else reaped it).  A child reaped by
@@ -291,7 +296,7 @@ fn gen_case(rng: &mut Rng, idx: usize) -> Case {
             3 | 4 | 5 => Op::WaitTimeout(*rng.pick(&DURS)),
             6 => Op::Terminate,
             7 => Op::Kill,
-            8 => Op::SendSignal(*rng.pick(&[0, 1, 2, 10, 15, 18, 19, 19, 23, 9])),
+            8 => Op::SendSignal(*rng.pick(&[0, 1, 2, 10, 15, 18, 19, 19, 23, 9, 64, 65, 256, 271, 1 << 20])),
             9 => Op::Detach,
             10 | 11 => Op::Pid,
             _ => Op::ExitStatus,
